@@ -251,17 +251,21 @@ func (o *OracleC22) AfterTxn(w *ledger.World, bc *ledger.BlockCtx, out *ledger.O
 		genOK = eligible(prePool(o.M, bc, v, gen))
 	}
 	wantM := ratApprox(a.T, gn.ShareRatio)
+	// how the ratio is applied is not spelled out by the statement: two roundings (fees and block
+	// reward are split separately) plus the float64 resolution of the contract for very large fee totals
+	tolF, _ := new(big.Float).Quo(new(big.Float).SetInt(a.T), new(big.Float).SetFloat64(1<<50)).Float64()
+	tol := 2 + tolF
 	minerSideKnown := false
 	if genOK {
 		minerSideKnown = true
 		if len(miners) == 1 && miners[0].P != gen {
 			o.viol(w, "recipient", "payfees/eligible-generator-passed-over", fmt.Sprintf("%s credited instead of generator %s", miners[0].P, gen))
 		}
-		if !within(a.M, wantM, 2) {
+		if !within(a.M, wantM, tol) {
 			o.viol(w, "split", "payfees/miner-side-differs-from-share-ratio", fmt.Sprintf("miner side %v, share ratio %v of %v", a.M, gn.ShareRatio, a.T))
 		}
 	} else if a.M.Sign() > 0 {
-		if !within(a.M, wantM, 2) {
+		if !within(a.M, wantM, tol) {
 			o.viol(w, "split", "payfees/miner-side-differs-from-share-ratio", fmt.Sprintf("miner side %v, share ratio %v of %v", a.M, gn.ShareRatio, a.T))
 		}
 		minerSideKnown = true
@@ -288,11 +292,11 @@ func (o *OracleC22) AfterTxn(w *ledger.World, bc *ledger.BlockCtx, out *ledger.O
 	if len(sharders) > nRew {
 		o.viol(w, "sharders", "payfees/more-sharders-credited-than-configured", fmt.Sprintf("%d credited, %d to be rewarded", len(sharders), nRew))
 	}
-	// (1−ratio)·T ≤ sharder side ≤ (1−ratio)·T + 2
+	// sharder side = the rest after the miner side: exactly T − M when the miner side was paid (the
+	// total check below), otherwise (1−ratio)·T within the ratio tolerance
 	wantS := new(big.Float).SetPrec(256).Sub(new(big.Float).SetPrec(256).SetInt(a.T), wantM)
 	if nRew >= 1 && under == 0 {
-		lo := new(big.Float).SetPrec(256).Sub(new(big.Float).SetPrec(256).SetInt(a.S), wantS)
-		if lo.Cmp(big.NewFloat(-0.000001)) < 0 || lo.Cmp(big.NewFloat(2.000001)) > 0 {
+		if !within(a.S, wantS, tol) {
 			o.viol(w, "split", "payfees/sharder-side-lost-or-gained-units", fmt.Sprintf("sharder side %v, expected the rest of %v after share ratio %v", a.S, a.T, gn.ShareRatio))
 		}
 		// every rewarded sharder gets its share: with at least nRew units to share out nobody is left out
